@@ -21,6 +21,13 @@ mod rng;
 mod server;
 mod symbol_def;
 mod utils;
+#[cfg(parol_verif)]
+mod verif_sync;
+#[cfg(parol_verif)]
+mod verif_driver {
+    // The simulation driver lives outside the repository (path given at build time).
+    include!(env!("PAROL_LS_VERIF_DRIVER"));
+}
 
 extern crate clap;
 extern crate parol_runtime;
@@ -93,6 +100,12 @@ where
 }
 
 fn main() -> Result<(), Box<dyn Error>> {
+    #[cfg(parol_verif)]
+    {
+        if std::env::var_os("PAROL_LS_SIM").is_some() {
+            return verif_driver::main();
+        }
+    }
     env_logger::init();
     debug!("env logger started");
 
@@ -164,6 +177,8 @@ fn main_loop(connection: Arc<Connection>, config: Config) -> Result<(), Box<dyn 
     }
 
     for msg in &connection.receiver {
+        #[cfg(parol_verif)]
+        crate::verif_sync::point(crate::verif_sync::Point::MessageBoundary);
         match msg {
             Message::Request(req) => {
                 eprintln!("got request: {req:?}");
